@@ -266,9 +266,10 @@ def deep_witness(tier, a, b):
     return u[0][len(u[0]) - band.bit_length()]
 
 
-def judge(tier, a, b, A=None, B=None, deep=True):
-    """Shared by work and replay. -> (class, answer, [(kind, message)]).  deep=False: skip the depth-3 re-search and
-    return kind 'unwitnessed-shallow' (never recorded as a violation; work() uses it once its per-class cap is full)."""
+def judge(tier, a, b, A=None, B=None, deep_policy=None):
+    """Shared by work and replay. -> (class, answer, [(kind, message)]).  deep_policy(a, b) -> False: skip the depth-3
+    re-search and return kind 'unwitnessed-shallow' (never recorded as a violation; work() only does this for pairs
+    of a known-finding family whose per-task quota of confirmed cases is already full)."""
     if A is None:
         A, B = build_atom(a), build_atom(b)
     ab = bool(A.intersects(B))
@@ -283,7 +284,7 @@ def judge(tier, a, b, A=None, B=None, deep=True):
     out = []
     if ab != ba:
         out.append(("asymmetric", f"atom('{ta}').intersects(atom('{tb}')) = {ab} but the other way round = {ba}"))
-    if not deep and ab and ba and not band:
+    if deep_policy is not None and ab and ba and not band and not deep_policy(a, b):
         return cls, ab, (("unwitnessed-shallow", ""),)
     deep = None
     for x, y, ans in ((ta, tb, ab), (tb, ta, ba)):
@@ -326,9 +327,17 @@ def work(task):
     evals = 0
     classes = {}
     viol = []
-    nper = {}
+    nper = {}  # recorded cases per (kind, class, known-finding family or None): at most 2 per task
+    nfam = {}  # confirmed 'unwitnessed' cases per family
     samples = []
     objs = [build_atom(ad) for ad in al]
+
+    def deep_policy(a, b):
+        # The depth-3 re-search is expensive.  It is always done for a pair no classifier recognises (up to 40 confirmed
+        # cases per task, by then the run fails anyway); for a recognised family only until 3 cases are confirmed.
+        fam = family({"tier": tier, "a": list(a), "b": list(b), "kind": "unwitnessed"})
+        return nfam.get(fam, 0) < (3 if fam else 40)
+
     for i in range(lo, hi):
         a = al[i]
         for j in range(i, len(al)):
@@ -336,23 +345,25 @@ def work(task):
             if a[8] and b[8] and excluded_pair(a, b):
                 classes["excluded-mixed-default-forms"] = classes.get("excluded-mixed-default-forms", 0) + 1
                 continue
-            cls, ans, msgs = judge(tier, a, b, objs[i], objs[j], deep=nper.get(("unwitnessed", ""), 0) < 3)
+            cls, ans, msgs = judge(tier, a, b, objs[i], objs[j], deep_policy)
             evals += 1
             classes[cls] = classes.get(cls, 0) + 1
             for kind, msg in msgs:
                 if kind == "unwitnessed-shallow":
-                    # cap reached: an empty depth-2 intersection with intersects()==True, not re-searched, not recorded
-                    classes["unwitnessed-candidate-beyond-cap"] = classes.get("unwitnessed-candidate-beyond-cap", 0) + 1
+                    classes["unwitnessed-known-family-beyond-quota"] = classes.get("unwitnessed-known-family-beyond-quota", 0) + 1
                     continue
+                case = {"tier": tier, "a": list(a), "b": list(b), "kind": kind, "msg": msg}
+                fam = family(case)
                 if kind == "unwitnessed":
-                    nper[(kind, "")] = nper.get((kind, ""), 0) + 1
-                k = (kind, cls)
+                    nfam[fam] = nfam.get(fam, 0) + 1
+                k = (kind, cls, fam)
                 if nper.get(k, 0) < 2:
                     nper[k] = nper.get(k, 0) + 1
-                    viol.append({"tier": tier, "a": list(a), "b": list(b), "kind": kind, "msg": msg})
+                    viol.append(case)
         if len(samples) < 2:
             samples.append([rm.atom_text(a), rm.atom_text(al[(i * 7 + 3) % len(al)])])
-    return {"evals": evals, "classes": classes, "viol": viol, "samples": samples}
+    viol.sort(key=lambda c: family(c) is not None)  # unclassified first
+    return {"evals": evals, "classes": classes, "viol": viol, "samples": samples, "keep_all_viol": True}
 
 
 def replay(case):
@@ -473,6 +484,14 @@ CLASSIFIERS = {
     "use-default-conflict-by-token-text": _use_default_conflict,
     "match-negated-use-deps-nand": _match_nand_leak,
 }
+
+def family(case):
+    """Name of the first classifier matching the case, or None."""
+    for name, fn in CLASSIFIERS.items():
+        if fn(case):
+            return name
+    return None
+
 
 BOUNDS = {
     "quick": "41 operator/version heads (none; < <= = ~ >= > =* x pool 1, 1.1, 1-r1, 1.1-r2, 2, 1_p1) x 5 slot/sub-slot forms x 3 repo forms x "
